@@ -79,7 +79,7 @@ def logUlpsHi (c : Nat) (e : Int) : Option Rat := do
 -- inside the proved region (1 − x = 10^-21) and at a generic argument the error is below 0.6 units
 #guard (logUlpsHi 999999999999999999999 (-21)).map (fun u => decide (u < 6 / 10)) == some true
 #guard (logUlpsHi 2 0).map (fun u => decide (u < 6 / 10)) == some true
--- at x → 1.1⁻, where the truncation of the artanh series (27th power dropped) is largest (0.015 units)
+-- at x → 1.1⁻, where the truncation of the artanh series is largest (35th power dropped: 2·10^-47 absolute)
 #guard (logUlpsHi 1099999999999999999999999999999999 (-33)).map (fun u => decide (u < 52 / 100)) == some true
 
 end LogAccEval
